@@ -8,6 +8,8 @@ Events
     ("start", d)            activate the CA service, initial random delay d ms (harness choice for random.uniform)
     ("stop",)               deactivate
     ("tick",)               fire the next virtual timer (one T_CheckCamGen expiry)
+    ("late", d)             environment deviation: the next T_CheckCamGen expiry happens d ms after it was due
+    ("btp", down|up)        environment fault: the lower layers reject / accept requests (Annex B.2.5 skip)
     ("rep", p, kind, arg)   advance p ms (firing every check due on the way, each one checked), then deliver a
                             position report time-stamped "now" whose dynamics are changed by (kind, arg):
                             none | h i (heading := menu h[i]) | s i (speed) | p i (north offset, m) | e i (east offset, m) |
@@ -118,8 +120,10 @@ def _decode(kind, sent, port, bad):
 # CAM
 # ------------------------------------------------------------------------------------------------------
 class CamModel:
-    def __init__(self, periods, dyns, delays=(0,), check_period=100, allow_stop=True, gaps=(), seed=0, first_delays=None, menu="std"):
+    def __init__(self, periods, dyns, delays=(0,), check_period=100, allow_stop=True, gaps=(), seed=0, first_delays=None, menu="std",
+                 lates=(), btp=False):
         self.menu = MENUS[menu]
+        self.lates, self.btp = list(lates), btp        # environment deviations: check timer fired late / lower layers down
         self.periods, self.dyns, self.delays = list(periods), [tuple(d) for d in dyns], list(delays)
         self.check_period, self.allow_stop, self.gaps, self.seed = check_period, allow_stop, list(gaps), seed
         self.first_delays = list(first_delays) if first_delays is not None else self.delays
@@ -144,6 +148,9 @@ class CamModel:
         evs = []
         if w.next_timer() is not None:
             evs.append(("tick",))
+            evs += [("late", d) for d in self.lates]
+        if self.btp:
+            evs.append(("btp", "up" if w.btp.down else "down"))
         if not w.ref.active:
             evs += [("start", d) for d in (self.first_delays if w.starts == 0 else self.delays)]
         elif self.allow_stop:
@@ -181,6 +188,12 @@ class CamModel:
             elif ev[0] == "tick":
                 w.fire_next()
                 on_fire(w, n_before)
+            elif ev[0] == "late":
+                w.fire_next(late_ms=ev[1])
+                on_fire(w, n_before)
+            elif ev[0] == "btp":
+                w.btp.down = ev[1] == "down"
+                ref.set_link(w.ms, not w.btp.down)
             elif ev[0] == "gap":
                 w.advance_to(w.ms + ev[1], on_fire)
             elif ev[0] == "rep":
@@ -225,7 +238,7 @@ class CamModel:
         except AttributeError:   # refactored tree: fall back to the generic digest (finer states, still sound)
             impl = X.generic_canon({k: v for k, v in vars(tm).items() if k not in ("btp_router", "cam_coder", "logging", "_path_history")})
         return (phase, len(w.pending_timers()), impl, w.ref.state(ms), _dims(w), _tpv_proj(w.ref.report, base),
-                _tpv_proj(w.ref.last_cam_report, base), w.cut, min(w.starts, 1))
+                _tpv_proj(w.ref.last_cam_report, base), w.cut, min(w.starts, 1), w.btp.down)
 
     def outcome(self, w, obs):
         return ("cam", w.last_n, w.ref.last_lf_ms == w.ref.last_cam_ms and w.last_n > 0, w.cam_tm.t_gen_cam, w.cut)
@@ -437,6 +450,14 @@ def _parts(thorough, seed):
          6 if thorough else 5, 2),
         ("cam_stop_go", ([100, 250, 1000], D(none, ["s", 2], ["s", 0], ["s", 3], ["p", 1]), [0, 50], None, True, [], seed, None, "zero"),
          6 if thorough else 5, 2),
+        # environment deviations: late check expiries, report outages (gap), stop / start, lower-layer outage - each followed
+        # by dynamics steps and by normal operation (the T_GenCamMax bound is judged at every later check)
+        ("cam_late", ([20, 1000], D(none, ["s", 2], ["s", 0]), [0], None, False, [1200], seed, None, "std", [150, 900, 2500]),
+         7 if thorough else 6, 2),
+        ("cam_late_restart", ([100], D(none, ["s", 2], ["s", 0]), [0], None, True, [1200, 3000], seed, None, "zero", [900, 2500]),
+         6 if thorough else 5, 2),
+        ("cam_btp_outage", ([100, 1000], D(none, ["s", 2], ["s", 0]), [0], None, False, [1200], seed, None, "std", [], True),
+         8 if thorough else 7, 2),
         ("cam_missing", ([100, 1000], D(none, *[["miss", f] for f in MISSABLE], ["s", 2], ["h", 3]), [0], None, True, [], seed),
          6 if thorough else 4, 2),
         ("cam_fast_lf", ([100], D(["s", 2], ["s", 0], none), [0], None, False, [], seed), 14 if thorough else 10, 2),
